@@ -314,13 +314,16 @@ FOLD = r"iter::Iterator::fold$"
 
 
 def lift_atom(facts, chain, ebb, folds=None):
-    """The element test is the bool call at block `ebb` of chain[0].fn.  Lift it outwards along the chain: if the
-    closure it lives in returns true only after it, and the closure is the predicate of an existential adaptor
-    (`any`, `is_some_and`, `map_or(false, ..)`, `map(..)` followed by `unwrap_or(false)`, or a `fold` from `false` whose
-    closure returns true only if its accumulator was true or the test held — these closures are appended to `folds`),
-    the adaptor call is a test of the enclosing function that is true only if some element passed.  Returns (atom block in the last hop's
-    function, None) or (None, reason)."""
-    cur = ebb
+    """The element test is the bool call at block `ebb` of chain[0].fn.  Lift it outwards along the chain, keeping a
+    polarity: the pair (block, pol) says `the bool computed at block has the value pol only if some element passed the
+    test`.  At each hop the closure the test lives in must return some value rp only after the test had its matching
+    outcome (it may negate: `|line| !names(line, "upgrade")`), and the adaptor it is the predicate of must propagate that
+    value: rp = true through the existential adaptors (`any`, `is_some_and`, `map_or(false, ..)`, `find(..).is_some()`,
+    `map(..)` followed by `unwrap_or(false)`, or a `fold` from `false` whose closure returns true only if its
+    accumulator was true or the test held — these closures are appended to `folds`), rp = false through their duals
+    (`all`, `is_none_or`, `map_or(true, ..)`, `find(..).is_none()`, `map(..).unwrap_or(true)`): `!xs.any(p)` and
+    `xs.all(|x| !p(x))` are the same test.  Returns ((atom block in the last hop's function, polarity), None) or (None, reason)."""
+    cur, pol = ebb, True
     for i in range(len(chain) - 1):
         g = chain[i].fn
         bb, t, node, ai = chain[i + 1].site
@@ -329,46 +332,62 @@ def lift_atom(facts, chain, ebb, folds=None):
         # `fold(false, |found, x| found || test(x))`: the accumulator (the closure's first parameter) is `false` or what the
         # closure returned for an earlier element, so it may be assumed to be true only after the test
         is_fold = bool(re.search(FOLD, c)) and ai == 2 and g.argc == 3
-        if not justified(g, 0, True, {("call", cur)}, set(), assume=({2} if is_fold else ())):
+        ta, fa = ({("call", cur)}, set()) if pol else (set(), {("call", cur)})
+        if justified(g, 0, True, ta, fa, assume=({2} if is_fold else ())):
+            rp = True
+        elif not is_fold and justified(g, 0, False, ta, fa):
+            rp = False
+        else:
             return None, "the closure testing the element can return true without the comparison succeeding"
         if is_fold:
             if len(t["args"]) != 3 or _const_bool(t["args"][1]) is not False:
                 return None, "the fold over the elements does not start from `false`"
             if folds is not None:
                 folds.append(g)
-            cur = bb
+            cur, pol = bb, True
         elif re.search(r"iter::Iterator::any$|Option::<T>::is_some_and$", c):
-            cur = bb
+            if not rp:
+                return None, "the predicate of %s is false, not true, when the element matches" % c.split("::")[-1]
+            cur, pol = bb, True
+        elif re.search(r"iter::Iterator::all$|Option::<T>::is_none_or$", c):
+            if rp:
+                return None, "the predicate of %s is true when the element matches, so its result does not depend on a match" % c.split("::")[-1]
+            cur, pol = bb, False
         elif re.search(r"Option::<T>::map_or$", c):
-            if _const_bool(t["args"][1]) is not False:
-                return None, "map_or default is not `false`"
-            cur = bb
+            if _const_bool(t["args"][1]) is not (not rp):
+                return None, "map_or default is not `%s`" % ("false" if rp else "true")
+            cur, pol = bb, rp
         elif re.search(r"iter::Iterator::(find|position|rposition)$", c):
             # `xs.find(test).is_some()`: Some only if the test held for an element
+            if not rp:
+                return None, "the predicate of %s is false when the element matches" % c.split("::")[-1]
             cands = [t["dest"]["l"]]
             for _ in range(3):
                 cands += [st["pl"]["l"] for _, _, st in par.stmts() if st["rv"]["rv"] == "use" and operand_local(st["rv"]["op"]) in cands and not st["pl"]["p"] and st["pl"]["l"] not in cands]
-            nxt = [b2 for b2, t2 in par.live_calls(r"Option::<T>::is_some$") if t2["args"] and owned_root(par, t2["args"][0])[0] in cands]
+            nxt = [(b2, t2["callee"].endswith("is_some")) for b2, t2 in par.live_calls(r"Option::<T>::(is_some|is_none)$") if t2["args"] and owned_root(par, t2["args"][0])[0] in cands]
             if len(nxt) != 1:
-                return None, "the result of %s(test) is not tested with is_some()" % c.split("::")[-1]
-            cur = nxt[0]
+                return None, "the result of %s(test) is not tested with is_some() / is_none()" % c.split("::")[-1]
+            cur, pol = nxt[0]
         elif re.search(r"Option::<T>::map$", c):
-            # Option<bool> folded by unwrap_or(false) / unwrap_or_default()
+            # Option<bool> folded by unwrap_or(false) / unwrap_or_default()  (dually unwrap_or(true) for a negated predicate)
             nxt = None
             cands = [t["dest"]["l"]]
             for _ in range(4):
                 for b2, t2 in par.live_calls(r"Option::<T>::(unwrap_or|unwrap_or_default)$"):
-                    if operand_local(t2["args"][0]) in cands and (t2["callee"].endswith("unwrap_or_default") or _const_bool(t2["args"][1]) is False):
+                    if operand_local(t2["args"][0]) in cands and ((rp and t2["callee"].endswith("unwrap_or_default")) or
+                                                                  (t2["callee"].endswith("unwrap_or") and _const_bool(t2["args"][1]) is (not rp))):
                         nxt = b2
                 if nxt is not None:
                     break
                 cands += [st["pl"]["l"] for _, _, st in par.stmts() if st["rv"]["rv"] == "use" and operand_local(st["rv"]["op"]) in cands and not st["pl"]["p"]]
             if nxt is None:
-                return None, "Option::map(test) is not folded with unwrap_or(false)"
-            cur = nxt
+                return None, "Option::map(test) is not folded with unwrap_or(%s)" % ("false" if rp else "true")
+            cur, pol = nxt, rp
         else:
             return None, "the element test is the closure of %s, which is not an existential adaptor" % c.split("::")[-1]
-    return fold_option_bool(chain[-1].fn, cur), None
+    if pol:
+        cur = fold_option_bool(chain[-1].fn, cur)
+    return (cur, pol), None
 
 
 def fold_option_bool(f, bb, max_hops=4):
@@ -791,7 +810,7 @@ def digest_message(f, ty_rx):
 
 
 # ------------------------------------------------------------------------------------------------ "a success is not forgotten"
-def blocks_after_success(f, groups, free_group, forced, avoid_edges=(), max_states=60000):
+def blocks_after_success(f, groups, free_group, forced, avoid_edges=(), max_states=60000, matched=None):
     """Path exploration of `f` with concrete values for designated bool calls.  `groups` = {name: atoms}: the tests of
     the list headers; the atoms of `free_group` take both outcomes at every evaluation, the atoms of the other groups
     evaluate to true; `forced` = {atom: value} fixes further calls.  A group is *satisfied* on a path once one of its
@@ -800,6 +819,8 @@ def blocks_after_success(f, groups, free_group, forced, avoid_edges=(), max_stat
     satisfied, all blocks reached), or (None, None) if the budget is exceeded.  Used to decide that a flag computed
     over several field lines cannot lose a match found on an earlier line."""
     group_of = {a[1]: g for g, atoms in groups.items() for a in atoms}
+    # the outcome of an atom that means `an element matched`: true, or false for an atom of negative polarity (`all(|x| !p(x))`)
+    mval = {a[1]: v for a, v in (matched or {}).items()}
     fixed = {a[1]: v for a, v in forced.items()}
     avoid = set(avoid_edges)
     full = frozenset(groups)
@@ -858,11 +879,11 @@ def blocks_after_success(f, groups, free_group, forced, avoid_edges=(), max_stat
             if bb in group_of:
                 g = group_of[bb]
                 e1 = dict(env)
-                e1[d] = True
+                e1[d] = mval.get(bb, True)
                 outs = [(e1, sat | {g})]
                 if g == free_group:
                     e2 = dict(env)
-                    e2[d] = False
+                    e2[d] = not mval.get(bb, True)
                     outs.append((e2, sat))
             elif bb in fixed:
                 env[d] = fixed[bb]
